@@ -256,7 +256,7 @@ def c06(pid, tier, t0):
     nv.conformance(res)
     res.stats["distinct_nontrivial"] = res.stats.get("transitions", 0)
     return nv.finish(pid, tier, t0, res, {
-        "rule": "every (command, address) pair - commands a/i/c with 0,1,2 text lines, d, d a, d A, y, y b, pu, pu a, pu b, r of 2/1/0-line and missing files, p, =, k a, k c, rs, @ b (register b holding the command line d), the filters !tr o 0 and !true - x address forms "
+        "rule": "every (command, address) pair - commands a/i/c with 0,1,2 text lines, d, d a, d A, y, y b, pu, pu a, pu b, r of 2/1/0-line and missing files, p, =, k a, k c, rs, @ b (register b holding the command line d), the filters !tr o 0 and !sed d (no output) - x address forms "
                 "{none, %, 0, 1, 2, 9, ., $, 'a, 'b(unset), /ax/, ?ax?, /zz/, //, ??, /ax/+1, .+1, $-1, +, -, +2, 'a-1, 1,2  2,3  1,$  .,$  .,+1  1;+1  2;+1  /ax/;+1  3,1  'a,$  1,9  2;/ax/} from every "
                 "initial configuration (buffers of 0,1,3,4 lines x every current line x mark a unset or on every line, registers preloaded); plus all sequences up to depth over a reduced alphabet; "
                 "every transition is a distinct (configuration, history) case",
